@@ -1,9 +1,9 @@
 (* C11 - the generated JSON Schema accepts exactly what the validator accepts (JSON data).
    PARTIAL: the theorem covers scalars (string / integer / float / boolean with length, bound,
    choice, equality, prefix and suffix predicates emitting distinct keywords), equality
-   validators, is-dict, lists with item-count predicates, optionals and caches, nested to any
-   depth. Unions, not-blank, user regexes, uniqueness and repeated keywords are refuted below;
-   tuples, maps, records and named recursive schemas are tied by differential execution only. *)
+   validators, is-dict, lists with item-count predicates, n-tuples, optionals and caches, nested
+   to any depth. Unions, not-blank, user regexes, uniqueness and repeated keywords are refuted below;
+   uniform tuples, maps, records and named recursive schemas are tied by differential execution only. *)
 From Coq Require Import ZArith List Bool String.
 From KV Require Import Base.PyVal Base.Prims Model.Validator Model.Sem Model.Schema Model.SchemaSat
      Proofs.SatP Corr.UserLib.
@@ -65,8 +65,9 @@ Proof. intros re H. vm_compute in H. vm_compute. rewrite H. reflexivity. Qed.
 
 (* non-vacuity: a nested member of the fragment and both verdicts *)
 Definition sample :=
-  ListV (OptionalV (NoneV None)
-           (Scalar KStr None [] [PMinLength 1; PStartsWith (VStr (lit "a")); PChoices [VStr (lit "ab"); VStr (lit "ac")]] []))
+  ListV (NTupleV [IsDictV; OptionalV (NoneV None)
+           (Scalar KStr None [] [PMinLength 1; PStartsWith (VStr (lit "a")); PChoices [VStr (lit "ab"); VStr (lit "ac")]] [])]
+          None (Some CoTupleOrList))
         [PMaxItems 2] [] None.
 Example C11_nonvacuous :
   frag no_text sample = true /\ Nat.ltb (vheight sample) 5 = true.
